@@ -182,12 +182,10 @@ Proof.
   - (* row i is an up-image of row i as well *)
     pose proof (B i Hlt) as Bi. pose proof (getQ_cons0_ext _ _ Bi) as Bi0.
     rewrite (Bi j), (Bi0 j).
-    pose proof (HS i ltac:(lia)) as S1. pose proof (Star_shift _ _ _ _ S1) as S2.
+    pose proof (HS i ltac:(lia)) as S1.
     destruct j as [|j].
-    + specialize (S1 0%nat). unfold up, dn in *. unfold getQ in *. cbn [nth] in *. rewrite S1. ring.
-    + specialize (S1 (S j)). specialize (S2 (S j)). unfold up, dn in *. unfold getQ in *. cbn [nth] in *.
-      pose proof (HS i ltac:(lia) j) as S3. unfold up, dn, getQ in S3.
-      rewrite S1, S3. ring.
+    + rewrite (S1 0%nat). unfold up, dn, getQ. cbn [nth]. ring.
+    + rewrite (S1 (S j)), (S1 j). unfold up, dn, getQ. cbn [nth]. destruct j; ring.
   - (* i = length M: row i is the down-image of row i-1 *)
     assert (i = length M) by lia. subst i.
     pose proof (B' (length M) ltac:(lia)) as Bi. pose proof (getQ_cons0_ext _ _ Bi) as Bi0.
@@ -204,4 +202,189 @@ Proof.
     + rewrite rw_mat_length. lia.
     + apply rw_mat_same_len.
     + exact IH.
+Qed.
+
+(* ------------------------------------------------------------------ sums *)
+Lemma sum_list_ext {A} (f g : A -> Q) l : (forall x, In x l -> f x == g x) -> sum_list (map f l) == sum_list (map g l).
+Proof.
+  induction l as [|x l IH]; intro H; cbn [map sum_list]; [reflexivity|].
+  rewrite (H x (or_introl eq_refl)), IH; [reflexivity|]. intros; apply H; right; assumption.
+Qed.
+Lemma sum_list_scale {A} c (f : A -> Q) l : sum_list (map (fun x => c * f x) l) == c * sum_list (map f l).
+Proof. induction l as [|x l IH]; cbn [map sum_list]; [ring|]. rewrite IH. ring. Qed.
+Lemma sum_list_plus {A} (f g : A -> Q) l :
+  sum_list (map (fun x => f x + g x) l) == sum_list (map f l) + sum_list (map g l).
+Proof. induction l as [|x l IH]; cbn [map sum_list]; [ring|]. rewrite IH. ring. Qed.
+Lemma sum_list_app a b : sum_list (a ++ b) == sum_list a + sum_list b.
+Proof. induction a as [|x a IH]; cbn [app sum_list]; [ring|]. rewrite IH. ring. Qed.
+Lemma sum_seq_S_last (f : nat -> Q) m : sum_list (map f (seq 0 (S m))) == sum_list (map f (seq 0 m)) + f m.
+Proof. rewrite seq_S, map_app, sum_list_app. cbn [map sum_list plus]. ring. Qed.
+Lemma sum_seq_S_first (f : nat -> Q) m : sum_list (map f (seq 0 (S m))) == f 0%nat + sum_list (map (fun k => f (S k)) (seq 0 m)).
+Proof. cbn [seq map sum_list]. rewrite <- seq_shift, map_map. reflexivity. Qed.
+
+(* ------------------------------------------------------------------ Binomial(N,1/2) weights *)
+Fixpoint pow2 (n : nat) : Q := match n with O => 1 | S n' => 2 * pow2 n' end.
+Lemma pow2_pos n : 0 < pow2 n.
+Proof. induction n as [|n IH]; cbn [pow2]; lra. Qed.
+
+Definition pi (N j : nat) : Q := inject_Z (binom N j) / pow2 N.
+Definition pim (N j : nat) : Q := match j with O => 0 | S j' => pi N j' end.
+
+Lemma binom_0_r n : binom n 0 = 1%Z. Proof. destruct n; reflexivity. Qed.
+Lemma binom_gt n : forall k, (n < k)%nat -> binom n k = 0%Z.
+Proof.
+  induction n as [|n IH]; intros [|k] Hk; cbn [binom]; try lia.
+  rewrite (IH k), (IH (S k)) by lia. reflexivity.
+Qed.
+Lemma binom_nonneg n : forall k, (0 <= binom n k)%Z.
+Proof.
+  induction n as [|n IH]; intros [|k]; cbn [binom]; try lia.
+  specialize (IH k) as H1. specialize (IH (S k)) as H2. lia.
+Qed.
+
+Lemma pi_S N j : pi (S N) j == (pim N j + pi N j) / 2.
+Proof.
+  pose proof (pow2_pos N). unfold pi, pim. cbn [pow2]. destruct j as [|j].
+  - rewrite !binom_0_r. field. lra.
+  - cbn [binom]. rewrite inject_Z_plus. unfold pi. field. lra.
+Qed.
+Lemma pi_over N j : (N < j)%nat -> pi N j == 0.
+Proof. intro H. unfold pi. rewrite binom_gt by assumption. pose proof (pow2_pos N). change (inject_Z 0) with 0. field. lra. Qed.
+Lemma pi_nonneg N j : 0 <= pi N j.
+Proof.
+  unfold pi. pose proof (pow2_pos N). apply Qle_shift_div_l; [assumption|]. rewrite Qmult_0_l.
+  change 0 with (inject_Z 0). rewrite <- Zle_Qle. apply binom_nonneg.
+Qed.
+
+(* ------------------------------------------------------------------ stationarity *)
+Definition colsum (M : list (list Q)) (w : nat -> Q) (j : nat) : Q :=
+  sum_list (map (fun i => w i * getQ (nth i M []) j) (seq 0 (length M))).
+
+Lemma rw_stationary p : forall k j, colsum (rw_mat k p p) (pi (S k)) j == pi (S k) j.
+Proof.
+  induction k as [|k IH]; intro j.
+  - unfold colsum. cbn [rw_mat length seq map sum_list nth]. unfold pi. cbn [pow2 binom].
+    unfold getQ. pose proof (sub1_Q p) as Ep.
+    destruct j as [|[|j]]; cbn [nth binom]; unfold inject_Z; cbn [Z.add]; rewrite ?Ep.
+    + field.
+    + field.
+    + destruct j; field.
+  - set (M := rw_mat k p p) in *.
+    assert (LM : length M = S (S k)) by apply rw_mat_length.
+    destruct (step_rows p p M (S (S k)) ltac:(lia) (rw_mat_same_len p p k) (rw_mat_Star p p k)) as [B B'].
+    assert (LM' : length (rw_mat (S k) p p) = S (S (S k))) by apply rw_mat_length.
+    assert (IHm : forall j, sum_list (map (fun i => pi (S k) i * getQ (0 :: nth i M []) j) (seq 0 (S (S k)))) == pim (S k) j).
+    { intros [|j']; unfold pim.
+      - rewrite (sum_list_ext _ (fun _ => 0 * 0)) by (intros; unfold getQ; cbn [nth]; ring).
+        induction (seq 0 (S (S k))); cbn [map sum_list]; [reflexivity|]. rewrite IHl. ring.
+      - rewrite <- (IH j'). unfold colsum. rewrite LM. apply sum_list_ext. intros i _. unfold getQ. cbn [nth]. reflexivity. }
+    unfold colsum. rewrite LM'. cbn [rw_mat]. fold M.
+    (* split pi (S N) i = (pim N i + pi N i)/2 *)
+    rewrite (sum_list_ext _ (fun i => (1 # 2) * (pim (S k) i * getQ (nth i (rw_step p p M) []) j)
+                                      + (1 # 2) * (pi (S k) i * getQ (nth i (rw_step p p M) []) j))).
+    2:{ intros i _. rewrite pi_S. field. }
+    rewrite sum_list_plus, !sum_list_scale.
+    (* part with pi N: the last term vanishes, the others are up-images *)
+    rewrite (sum_seq_S_last (fun i => pi (S k) i * getQ (nth i (rw_step p p M) []) j) (S (S k))).
+    rewrite (pi_over (S k) (S (S k))) by lia.
+    rewrite (sum_list_ext (fun i => pi (S k) i * getQ (nth i (rw_step p p M) []) j)
+                          (fun i => p * (pi (S k) i * getQ (nth i M []) j) + (1 - p) * (pi (S k) i * getQ (0 :: nth i M []) j))).
+    2:{ intros i Hi. apply in_seq in Hi. rewrite B by lia. unfold up. ring. }
+    rewrite sum_list_plus, !sum_list_scale.
+    (* part with pim N: the first term vanishes, the others are down-images *)
+    rewrite (sum_seq_S_first (fun i => pim (S k) i * getQ (nth i (rw_step p p M) []) j) (S (S k))).
+    rewrite (sum_list_ext (fun i => pim (S k) (S i) * getQ (nth (S i) (rw_step p p M) []) j)
+                          (fun i => (1 - p) * (pi (S k) i * getQ (nth i M []) j) + p * (pi (S k) i * getQ (0 :: nth i M []) j))).
+    2:{ intros i Hi. apply in_seq in Hi. rewrite B' by lia. replace (S i - 1)%nat with i by lia. unfold dn, pim. ring. }
+    rewrite sum_list_plus, !sum_list_scale.
+    rewrite IHm. pose proof (IH j) as IHj. unfold colsum in IHj. rewrite LM in IHj. rewrite IHj.
+    rewrite (pi_S (S k) j). unfold pim at 1. field.
+Qed.
+
+(* rouwenhorst: Binomial(n-1,1/2) is a stationary distribution of P *)
+Lemma rouwenhorst_stationary n rho psi mu P y :
+  rouwenhorst n rho psi mu = Some (P, y) ->
+  forall j, sum_list (map (fun i => pi (n - 1) i * getQ (nth i P []) j) (seq 0 n)) == pi (n - 1) j.
+Proof.
+  unfold rouwenhorst. destruct (n <? 2)%nat eqn:E; [discriminate|]. apply Nat.ltb_ge in E.
+  intro H. injection H as HP _. subst P. intro j.
+  set (p := ndiv (nadd none_ rho) ntwo).
+  pose proof (rw_stationary p (n - 2) j) as Hst. unfold colsum in Hst. rewrite rw_mat_length in Hst.
+  replace (S (n - 2)) with (n - 1)%nat in Hst by lia. replace (S (n - 1)) with n in Hst by lia. exact Hst.
+Qed.
+
+Lemma pi_sums_to_one : forall N, sum_list (map (pi N) (seq 0 (S N))) == 1.
+Proof.
+  induction N as [|N IH].
+  - cbn [seq map sum_list]. unfold pi. cbn [binom pow2]. unfold inject_Z. field.
+  - rewrite (sum_list_ext _ (fun j => (1 # 2) * pim N j + (1 # 2) * pi N j)) by (intros; rewrite pi_S; field).
+    rewrite sum_list_plus, !sum_list_scale.
+    rewrite (sum_seq_S_first (pim N)). cbn [pim].
+    rewrite (sum_seq_S_last (pi N) (S N)), (pi_over N (S N)) by lia.
+    change (fun k : nat => pi N k) with (pi N). rewrite IH. field.
+Qed.
+
+(* ------------------------------------------------------------------ moments of Binomial(N,1/2) *)
+Lemma pi_sum_step (f : nat -> Q) N :
+  sum_list (map (fun j => f j * pi (S N) j) (seq 0 (S (S N)))) ==
+  (1 # 2) * sum_list (map (fun j => f (S j) * pi N j) (seq 0 (S N)))
+  + (1 # 2) * sum_list (map (fun j => f j * pi N j) (seq 0 (S N))).
+Proof.
+  rewrite (sum_list_ext _ (fun j => (1 # 2) * (f j * pim N j) + (1 # 2) * (f j * pi N j))) by (intros; rewrite pi_S; field).
+  rewrite sum_list_plus, !sum_list_scale.
+  rewrite (sum_seq_S_first (fun j => f j * pim N j)). cbn [pim].
+  rewrite (sum_seq_S_last (fun j => f j * pi N j) (S N)), (pi_over N (S N)) by lia. ring.
+Qed.
+
+Lemma pi_moment0 N : sum_list (map (fun j => 1 * pi N j) (seq 0 (S N))) == 1.
+Proof. rewrite sum_list_scale. change (fun j : nat => pi N j) with (pi N). rewrite pi_sums_to_one. ring. Qed.
+
+Lemma pi_moment1 : forall N, sum_list (map (fun j => natQ j * pi N j) (seq 0 (S N))) == natQ N / 2.
+Proof.
+  induction N as [|N IH].
+  - cbn [seq map sum_list]. change (natQ 0) with 0. field.
+  - rewrite (pi_sum_step natQ N).
+    rewrite (sum_list_ext (fun j => natQ (S j) * pi N j) (fun j => natQ j * pi N j + 1 * pi N j))
+      by (intros; rewrite natQ_S; ring).
+    rewrite sum_list_plus, IH, pi_moment0, natQ_S. field.
+Qed.
+
+Lemma pi_moment2 : forall N, sum_list (map (fun j => (natQ j * natQ j) * pi N j) (seq 0 (S N)))
+                             == natQ N / 4 + natQ N * natQ N / 4.
+Proof.
+  induction N as [|N IH].
+  - cbn [seq map sum_list]. change (natQ 0) with 0. field.
+  - rewrite (pi_sum_step (fun j => natQ j * natQ j) N).
+    rewrite (sum_list_ext (fun j => natQ (S j) * natQ (S j) * pi N j)
+                          (fun j => (natQ j * natQ j) * pi N j + (2 * (natQ j * pi N j) + 1 * pi N j)))
+      by (intros; rewrite natQ_S; ring).
+    rewrite sum_list_plus, (sum_list_plus (fun j => 2 * (natQ j * pi N j))), sum_list_scale.
+    rewrite IH, pi_moment1, pi_moment0, natQ_S. field.
+Qed.
+
+(* ------------------------------------------------------------------ unconditional mean and variance under the stationary law *)
+Lemma rouwenhorst_uncond n rho psi mu P y :
+  (2 <= n)%nat -> -1 <= rho /\ rho < 1 -> rouwenhorst n rho psi mu = Some (P, y) ->
+  let m := sum_list (map (fun j => getQ y j * pi (n - 1) j) (seq 0 n)) in
+  m == mu / (1 - rho) /\
+  sum_list (map (fun j => (getQ y j - m) * (getQ y j - m) * pi (n - 1) j) (seq 0 n)) == psi * psi / natQ (n - 1).
+Proof.
+  intros Hn Hr Hrun. cbv zeta.
+  pose proof (rw_grid_nth n rho psi mu P y Hn Hr Hrun) as G.
+  assert (HN : ~ natQ (n - 1) == 0) by (intro E; pose proof (natQ_pos (n - 1) ltac:(lia)); lra).
+  set (s := (psi - - psi) / natQ (n - 1)) in *. set (c := mu / (1 - rho)) in *.
+  replace (seq 0 n) with (seq 0 (S (n - 1))) by (f_equal; lia).
+  assert (Em : sum_list (map (fun j => getQ y j * pi (n - 1) j) (seq 0 (S (n - 1)))) == c).
+  { rewrite (sum_list_ext _ (fun j => (- psi + c) * (1 * pi (n - 1) j) + s * (natQ j * pi (n - 1) j))).
+    2:{ intros j Hj. apply in_seq in Hj. unfold getQ. rewrite G by lia. ring. }
+    rewrite sum_list_plus, !sum_list_scale.
+    change (fun x : nat => 1 * pi (n - 1) x) with (fun j : nat => 1 * pi (n - 1) j).
+    rewrite pi_sums_to_one, pi_moment1. unfold s. field. assumption. }
+  split; [exact Em|].
+  rewrite (sum_list_ext _ (fun j => (psi * psi) * (1 * pi (n - 1) j)
+                                    + ((- (2) * psi * s) * (natQ j * pi (n - 1) j)
+                                       + (s * s) * ((natQ j * natQ j) * pi (n - 1) j)))).
+  2:{ intros j Hj. apply in_seq in Hj. rewrite Em. unfold getQ. rewrite G by lia. ring. }
+  rewrite sum_list_plus, (sum_list_plus (fun j => (- (2) * psi * s) * (natQ j * pi (n - 1) j))), !sum_list_scale.
+  rewrite pi_sums_to_one, pi_moment1, pi_moment2. unfold s. field. assumption.
 Qed.
